@@ -54,16 +54,22 @@ def _descendant_cbmc(root_pid):
         seen.add(p)
         for k in kids.get(p, []):
             stack.append(k)
-        if p in procs and procs[p][0].startswith("cbmc"):
-            yield p, procs[p][2]
+        if p in procs and (procs[p][0].startswith("cbmc") or procs[p][0].startswith("kani-driver")):
+            yield p, procs[p][2], procs[p][0]
+
+
+DRIVER_RSS_LIMIT_KB = int(float(os.environ.get("VERIF_DRIVER_RSS_LIMIT_GB", "24")) * 1048576)
+PEAK = {}
 
 
 def _watchdog(proc, stop, killed):
     while not stop.is_set():
         try:
-            for pid, rss in _descendant_cbmc(proc.pid):
-                if rss > RSS_LIMIT_KB:
-                    log("  watchdog: cbmc pid %d RSS %.1f GB > limit, killing" % (pid, rss / 1048576.0))
+            for pid, rss, comm in _descendant_cbmc(proc.pid):
+                limit = RSS_LIMIT_KB if comm.startswith("cbmc") else DRIVER_RSS_LIMIT_KB
+                PEAK[comm[:11]] = max(PEAK.get(comm[:11], 0), rss)
+                if rss > limit:
+                    log("  watchdog: %s pid %d RSS %.1f GB > limit, killing" % (comm, pid, rss / 1048576.0))
                     killed.append(pid)
                     os.kill(pid, signal.SIGKILL)
         except Exception:
